@@ -187,6 +187,14 @@ def sub_corpus(tier, seed):
     rng = random.Random(seed + 202)
     defs = [d for d in corpus.shape_corpus() if d["id"].startswith("sub_")]
     bodies = ["a|b", "[0-9]+", "x?y", "(?i)k", "a|", "é|e", "(?-u:z)", "[^a]", "ab|a", "(a|b)*c", "q+?"]
+    # mixed Unicode modes: a str subpattern keeps its Unicode meaning inside a byte-string pattern
+    # (and a byte-string subpattern its byte meaning inside a str pattern); only possible with utf8 = false
+    mixed = [("[^a]", b"x(?&s0)"), (".", b"(?&s0)y"), ("\\w+", b"<(?&s0)>"), ("[^a-z]+", b"(?&s0);"), ("é|.", b"=(?&s0)")]
+    for k, (body, user) in enumerate(mixed):
+        defs.append(corpus.mk("submix%d" % k, [corpus.rx(user, prio=9, greedy=True), corpus.rx(rb"(?s-u:.)", prio=1)], subs=[("s0", body)], utf8=False, tags=["sub"]))
+        defs.append(corpus.mk("submixn%d" % k, [corpus.rx(b"q(?&s1)", prio=9, greedy=True), corpus.rx(rb"(?s-u:.)", prio=1)], subs=[("s0", body), ("s1", b"(?&s0)z|w")], utf8=False, tags=["sub"]))
+    for k, (body, user) in enumerate([(b"[\x80-\xff]", "(?&s0)+a"), (b"[^a]", "b(?&s0)"), (b".", "c(?&s0)c")]):
+        defs.append(corpus.mk("submixb%d" % k, [corpus.rx(user, prio=9, greedy=True), corpus.rx("[a-z]", prio=1)], subs=[("s0", body)], utf8=False, tags=["sub"]))
     n = 25 if tier == "quick" else 300
     for k in range(n):
         subs = [("s0", rng.choice(bodies))]
